@@ -8,6 +8,7 @@
 use std::collections::HashMap;
 use std::convert::TryFrom;
 use std::marker::PhantomData;
+use std::panic::{catch_unwind, AssertUnwindSafe};
 use std::sync::{Arc as StdArc, Mutex};
 
 use rt::alloc::{self, track};
@@ -327,7 +328,7 @@ fn run_thread<P: SizedPayload>(mut l: Local<P>, ops: Vec<(SOp, u8, u8)>, sh: Std
                 l.next_val += 1;
                 let addr = data_addr(&l.pool[i]);
                 let wrote = match &mut l.pool[i] {
-                    H::Arc(a) => match pick(b, 3) {
+                    H::Arc(a) => match pick(b, 4) {
                         0 => {
                             if a.is_unique() {
                                 Arc::get_mut(a).map(|r| r.setp(v)).is_some()
@@ -336,7 +337,30 @@ fn run_thread<P: SizedPayload>(mut l: Local<P>, ops: Vec<(SOp, u8, u8)>, sh: Std
                             }
                         }
                         1 => Arc::get_mut(a).map(|r| r.setp(v)).is_some(),
-                        _ => Arc::get_unique(a).map(|u| (**u).setp(v)).is_some(),
+                        2 => Arc::get_unique(a).map(|u| (**u).setp(v)).is_some(),
+                        _ => {
+                            // the deprecated writers' gate (Arc<MaybeUninit<T>>::write panics unless unique): the same
+                            // allocation viewed as MaybeUninit<P> (repr(transparent)). `write` overwrites without
+                            // dropping, so the old value is carried over by a bitwise copy and destroyed by hand
+                            // once the gate has granted access (nobody else can write while this handle exists).
+                            let old = std::mem::ManuallyDrop::new(unsafe { std::ptr::read(&**a as *const P) });
+                            let mu: &mut Arc<std::mem::MaybeUninit<P>> = unsafe { &mut *(a as *mut Arc<P> as *mut Arc<std::mem::MaybeUninit<P>>) };
+                            let r = catch_unwind(AssertUnwindSafe(|| {
+                                #[allow(deprecated)]
+                                let slot = mu.write(P::make(v));
+                                slot.setp(v);
+                            }));
+                            match r {
+                                Ok(()) => {
+                                    drop(std::mem::ManuallyDrop::into_inner(old));
+                                    true
+                                }
+                                Err(e) => {
+                                    drop(e);
+                                    false
+                                }
+                            }
+                        }
                     },
                     H::Hs(h) => Arc::get_mut(h).map(|r| r.slice.setp(v)).is_some(),
                     H::Uniq(u) => {
